@@ -185,8 +185,8 @@ def coq_eval_strings(imports, run_fn, case_terms, shard=400, timeout=900, defs="
             fn = os.path.join(tmp, "cases%d.v" % k)
             with open(fn, "w") as f:
                 f.write("From JT Require Import %s.\nOpen Scope string_scope.\n%s\n" % (" ".join(imports), defs))
-                f.write("Definition cases :=\n [ " + "\n ; ".join(sc) + " ].\n")
-                f.write("Eval vm_compute in (sep_concat nl (map (%s) cases)).\n" % run_fn)
+                # the list is elaborated against the domain of run_fn (so that e.g. a shard whose options are all `None` still types)
+                f.write("Eval vm_compute in (sep_concat nl (map (%s)\n [ " % run_fn + "\n ; ".join(sc) + " ])).\n")
             procs.append((fn, None))
         results = [None] * len(shards)
         running = []
